@@ -1,5 +1,6 @@
 import SamplyModel.Lemmas.AsmDecode
 import SamplyModel.Lemmas.AsmBytes
+import SamplyModel.Lemmas.C20Judge
 /-!
 # C20 — `/asm/v1` returns a gap-free, in-range instruction listing of the requested bytes
 
@@ -552,6 +553,36 @@ starting at `mstart` is the file range `(mstart + fo, n)`: every statement of `C
 theorem C20_fat_member (file : List UInt8) (mstart msize fo n : Nat) (h : fo + n ≤ msize) :
     fileBytes (memberData file mstart msize) fo n = fileBytes file (mstart + fo) n :=
   fileBytes_fileBytes file mstart msize fo n h
+
+/-- **The judge checks the proved statement.** The judge's walker (`C20.walk` in `Iface/C20.lean`: an independent
+re-implementation that walks the implementation's listing and produces the error messages) accepts a listing with
+end `stop` **iff** the listing satisfies `chainOk` — the specification that `C20_offsets` / `C20_query` prove of
+the model — and then the listing has the list-level properties of the statement: first offset 0, strictly
+increasing, each below the limit, each next offset = previous + step of the previous instruction. So a response
+passes clauses 2-4 of the judge exactly when it has the property the theorems are about, for every oracle. -/
+theorem C20_judge_walk_iff (dec : Nat → Dec) (adjust limit : Nat) (items : List Item) (stop : Nat) :
+    (C20.walk dec adjust limit none items = .ok stop ↔ chainOk dec adjust limit 0 items stop = true) ∧
+    (C20.walk dec adjust limit none items = .ok stop →
+      (∀ a, items.head? = some a → a.off = 0) ∧
+      items.Pairwise (fun a b => a.off < b.off) ∧
+      (∀ it ∈ items, it.off < limit) ∧
+      (∀ i a b, items[i]? = some a → items[i + 1]? = some b →
+          ∃ s, stepAt dec adjust a = some s ∧ b.off = a.off + s)) := by
+  have hs := C20.walk_sound dec adjust limit items none stop
+  have hc := C20.walk_complete dec adjust limit items none stop
+  simp only [C20.expectedNext] at hs hc
+  refine ⟨⟨hs, hc⟩, ?_⟩
+  intro h
+  have hch := hs h
+  refine ⟨?_, chain_pairwise _ _ _ hch, fun it hit => ((chain_bounds _ _ _ hch).2 it hit).2,
+    chain_consecutive _ _ _ hch⟩
+  intro a ha
+  cases items with
+  | nil => simp at ha
+  | cons it rest =>
+    simp only [List.head?_cons, Option.some.injEq] at ha
+    subst ha
+    exact (chain_cons hch).1
 
 /-! ### The repaired defect (2d669439): the pre-fix `size` came from the re-created reader -/
 
